@@ -782,6 +782,10 @@ def run(ctx):
     from .c09 import r5b_completion_flag
 
     r5b_completion_flag(ctx, 'C01.R10')
+    from . import shared as _sh1
+
+    _sh1.run_flags_are_per_run(ctx, 'C01.R10')
+    _sh1.restore_ignores_target_state(ctx, 'C01.R5')
     from .shared import queue_put_retries_until_done
 
     queue_put_retries_until_done(ctx, 'C01.R10')
